@@ -118,7 +118,7 @@ theorem F17_unpark :
     ((wF17.ths.unpark 1).get 1).causality = vv [5, 1, 0, 0, 0] ∧
     ((wF17.ths.unpark 1).get 1).state = .runnable true := by decide +kernel
 
-/-! ### F18: a release resets a pending unpark token -/
+/-! ### F18 (repaired): a release keeps a pending unpark token -/
 
 /-- thread 1 is runnable WITH a stored token (`runnable true`), its stale `operation` (from an
 earlier `lock`) still names the mutex; thread 0 releases the mutex -/
@@ -128,8 +128,21 @@ def wF18 : World :=
     (some 0) [.mutex { lock := some 0 }, .rwlock {}, .condvar {}, .notify { spurious := true },
       .notify { seqCst := true }, .notify { seqCst := true }]
 
-theorem F18_token_lost :
+/-- since the repair of finding F18 (`Thread.wake` touches blocked threads only) the token survives the
+release (it was reset to `runnable false` before) -/
+theorem F18_token_kept :
     (wF18.releaseLock 0).toOption.map (fun w' => (w'.ths.get 1).state) =
+    some (.runnable true) := by decide +kernel
+
+/-- the same state with thread 1 blocked on the mutex: the release wakes it -/
+def wF18b : World :=
+  mk [{ causality := vv [2, 0, 0, 0, 0] },
+      { state := .blocked, operation := some ⟨0, .opaque⟩ }]
+    (some 0) [.mutex { lock := some 0 }, .rwlock {}, .condvar {}, .notify { spurious := true },
+      .notify { seqCst := true }, .notify { seqCst := true }]
+
+theorem F18_blocked_woken :
+    (wF18b.releaseLock 0).toOption.map (fun w' => (w'.ths.get 1).state) =
     some (.runnable false) := by decide +kernel
 
 end Ex
